@@ -20,7 +20,7 @@ def scratch():
 def check(d, rule):
     # no `go build` of the scratch copy: the checker type-checks what it loads and refuses a tree that does not compile
     # (exit 2, "ERROR load"); thousands of scratch builds would otherwise fill the Go build cache (one entry per copy)
-    r = subprocess.run(['/verif/bin/genqlcheck', '-repo', d, '-verif', '/verif', '-property', pid, '-no-evidence'], capture_output=True, text=True, env=ENV)
+    r = subprocess.run([os.environ.get('GENQLCHECK', '/verif/bin/genqlcheck'), '-repo', d, '-verif', '/verif', '-property', pid, '-no-evidence'], capture_output=True, text=True, env=ENV)
     if r.returncode == 2 or r.stdout.startswith('ERROR'):
         return 'NOCOMPILE', (r.stdout + r.stderr)[:200]
     lines = [l for l in r.stdout.splitlines() if l.startswith('VIOLATED') or l.startswith('UNDECIDED')]
